@@ -222,7 +222,7 @@ def instance(s: dict, comps: dict, tok: Tok, mode: str = "rand", depth: int = 0,
                 return None
             m = members[0] if (mode == "min" or deep) else rng.choice(members)
             v = instance(m, comps, tok, mode, depth + 1)
-            _flag_union_ambiguity(members, m, v, comps, tok)
+            _flag_union_ambiguity(members, m, v, comps, tok, k)
             return v
     t = s.get("type")
     if isinstance(t, list):
@@ -262,17 +262,28 @@ def instance(s: dict, comps: dict, tok: Tok, mode: str = "rand", depth: int = 0,
     return any_value(tok)
 
 
-def _flag_union_ambiguity(members: list, chosen: dict, v, comps: dict, tok: Tok) -> None:
+def _flag_union_ambiguity(members: list, chosen: dict, v, comps: dict, tok: Tok, kw: str = "oneOf") -> None:
     """Record (in tok.flags) when the generated code's first-match decoding cannot tell the chosen member from an
-    earlier one: the known-finding strata of DESIGN.md section 5 are keyed on these generator-known triggers."""
+    earlier one: the known-finding strata of DESIGN.md section 5 are keyed on these generator-known triggers.
+    `oneof_ambiguous_instance` marks a value that validates against two oneOf members: it is *not* a valid
+    instance of the schema and must not be used as one."""
     fmts = {resolve(m, comps).get("format") for m in members if resolve(m, comps).get("type") == "string"}
     if {"date", "date-time"} <= fmts and resolve(chosen, comps).get("format") in ("date", "date-time"):
         tok.flags.add("union_date_datetime")
     if isinstance(v, dict):
         for m in members:
             if m is chosen:
+                continue
+            if is_objectish(m, comps) and valid(m, v, comps):
+                if kw == "oneOf":
+                    tok.flags.add("oneof_ambiguous_instance")
+                continue  # anyOf: matching several members is fine, decoding as any of them is legitimate
+        for m in members:
+            if m is chosen:
                 break
-            if is_objectish(m, comps) and merged_object(m, comps)["required"] <= set(v):
+            if is_objectish(m, comps) and merged_object(m, comps)["required"] <= set(v) and not valid(m, v, comps):
+                # the earlier member does not admit the value (closed / typed additional properties, ill-typed
+                # property) but its decoder does not validate and will take it
                 tok.flags.add("union_model_shadowed")
     for m in members:
         rm = resolve(m, comps)
@@ -329,10 +340,11 @@ def object_instances(s: dict, comps: dict, tok: Tok, n_rand: int = 6) -> list[tu
         members = [m for k in ("oneOf", "anyOf") for m in sch.get(k, []) if not is_null_schema(m)]
         if isinstance(sch.get("type"), list):
             members = [{**sch, "type": t} for t in sch["type"] if t != "null"]
+        kw_ = "anyOf" if sch.get("anyOf") and not sch.get("oneOf") else "oneOf"
         for i, m in enumerate(members[:5]):
-            def sub(m=m, members=members):
+            def sub(m=m, members=members, kw_=kw_):
                 v = instance(m, comps, tok, "rand", 1)
-                _flag_union_ambiguity(members, m, v, comps, tok)
+                _flag_union_ambiguity(members, m, v, comps, tok, kw_ if not isinstance(sch.get("type"), list) else "anyOf")
                 return v
             emit(f"branch:{name}:{i}", lambda name=name, sub=sub: with_prop(name, sub))
     for i in range(n_rand):
